@@ -9,8 +9,6 @@ import jax.numpy as jnp
 from jax import Array
 from jax.typing import ArrayLike
 
-from jaxley.solver_gate import save_exp
-
 
 class Transform(ABC):
     def __call__(self, x: ArrayLike) -> Array:
@@ -40,13 +38,13 @@ class SigmoidTransform(Transform):
         self.width = upper - lower
 
     def forward(self, x: ArrayLike) -> Array:
-        y = 1.0 / (1.0 + save_exp(-x))
+        y = jax.nn.sigmoid(x)
         return self.lower + self.width * y
 
     def inverse(self, y: ArrayLike) -> Array:
         x = (y - self.lower) / self.width
-        x = -jnp.log((1.0 / x) - 1.0)
-        return x
+        # Numerically stable logit.
+        return jnp.log(x) - jnp.log1p(-x)
 
 
 class SoftplusTransform(Transform):
@@ -62,10 +60,13 @@ class SoftplusTransform(Transform):
         self.lower = lower
 
     def forward(self, x: ArrayLike) -> Array:
-        return jnp.log1p(save_exp(x)) + self.lower
+        # Numerically stable softplus (no clipping of the exponent, no overflow).
+        return jnp.logaddexp(x, 0.0) + self.lower
 
     def inverse(self, y: ArrayLike) -> Array:
-        return jnp.log(save_exp(y - self.lower) - 1.0)
+        # Numerically stable `log(exp(z) - 1)`.
+        z = y - self.lower
+        return z + jnp.log(-jnp.expm1(-z))
 
 
 class NegSoftplusTransform(SoftplusTransform):
